@@ -1,6 +1,7 @@
 import AGV.Util.Sexp
 import AGV.Util.Judge
 import AGV.Model.Hostile
+import AGV.Model.HostileNum
 
 /-!
   Judge of property C12.  The specification is a predicate on the implementation's answer:
@@ -80,6 +81,49 @@ def predicateOnly (D : Defects) (impl : Sexp) (implS : String) (deepAllowed mark
   else if isUploadPanic impl && markerPresent && D.valueIndex then .known idValue implS specText
   else .viol "ok | err" specText
 
+
+-- ------------------------------------------------------------------ numbers
+
+open AGV.Model.HostileNum in
+def numAnsSexp : NAns → Sexp
+  | .data (.int n) => .list [.atom "ok", .str (toString n).toList]
+  | .data .float => .list [.atom "ok", .str "f".toList]
+  | .error => .atom "err"
+  | .crash => .list [.atom "panic", .str "src/types/external/non_zero_integers.rs".toList]
+
+/-- `-?(0|[1-9][0-9]*)` except `-0` (which serde_json reads as the float -0.0): sign and digits -/
+def canonicalInt (s : List Char) : Option (Bool × List Char) :=
+  let (neg, ds) := match s with
+    | '-' :: r => (true, r)
+    | r => (false, r)
+  match ds with
+  | [] => none
+  | ['0'] => if neg then none else some (false, ds)
+  | '0' :: _ => none
+  | _ => if ds.all Char.isDigit then some (neg, ds) else none
+
+def digitsVal (ds : List Char) : Nat := ds.foldl (fun a c => a * 10 + (c.toNat - 48)) 0
+
+open AGV.Model.HostileNum in
+/-- the predicted answer, `none` = only "answered, not crashed" is required.  Numerals of more
+    than 40 digits are not converted: beyond u64 every integer position and `ID` answer with an
+    error (`lexNumber`), a `Float` position accepts up to about 1.8e308 and the parsers refuse
+    what lies beyond — left to the predicate. -/
+def numExpected (ty : NTy) (text : List Char) : Option NAns :=
+  match canonicalInt text with
+  | none => none
+  | some (neg, ds) =>
+    if ds.length ≤ 40 then
+      let n : Int := if neg then -(digitsVal ds : Int) else (digitsVal ds : Int)
+      some (numAnswer ty n)
+    else
+      match ty with
+      | .float => none
+      | _ => some .error
+
+def strsOf (l : List Sexp) : List String :=
+  l.filterMap (fun x => match x with | .str s => some (String.ofList s) | _ => none)
+
 def limOf : Sexp → Option (Option Nat)
   | .atom "-" => some none
   | .atom n => n.toNat?.map some
@@ -147,6 +191,23 @@ def judge (known : List String) (case impl : String) : JudgeOut :=
         if D.noNestingLimit && n.toNat?.getD 0 ≥ abortFloor then .known idDeep impl "(threshold none)"
         else .viol "(threshold none)" "(threshold none)"
       | _ => .viol "(threshold none)" "(threshold none)"
+    | .list [.atom "num", .atom ty, .atom _, .atom _, .str text] =>
+      match AGV.Model.HostileNum.tyOfName ty with
+      | none => .tie "a numeric type the source tables do not list" specText
+      | some nty =>
+        match numExpected nty text with
+        | some a =>
+          let m := render (numAnsSexp a)
+          if impl = m then .ok else if safe i then .tie m specText else .viol m specText
+        | none => if safe i then .ok else .viol "ok | err" specText
+    | .list [.atom "numtypes"] =>
+      match i with
+      | .list (.atom "types" :: ts) =>
+        let have_ := strsOf ts
+        let want := AGV.Model.HostileNum.allTypeNames
+        if want.all have_.contains && have_.all want.contains then .ok
+        else .tie (toString want) "the probe schema covers every numeric scalar of the source"
+      | _ => if safe i then .tie "(types …)" specText else .viol "(types …)" specText
     | .list [.atom "body", _, .str b, .atom _] =>
       predicateOnly D i impl (D.noNestingLimit && rawDepth b ≥ abortFloor) (hasMarker b)
     | .list [.atom "qs", .str b] => predicateOnly D i impl (D.noNestingLimit && rawDepth b ≥ abortFloor) (hasMarker b)
